@@ -26,6 +26,8 @@ from props import PROPS  # noqa: E402
 
 
 def main():
+    import logging
+    logging.disable(logging.CRITICAL)      # the library logs every ignored hostile message
     if len(sys.argv) < 3:
         print(__doc__)
         return 2
